@@ -184,4 +184,48 @@ def tupleOf : List Int → List (List Int) → Prop
   | x :: t, d :: ds => x ∈ d ∧ tupleOf t ds
   | _, _ => False
 
+/-! ### findIndex: "the last visited match wins" -/
+
+/-- what `std::find_if` returns: the first match in visit order, or -1 -/
+def firstMatch (vis : List Nat) (f : Nat → Bool) : Int :=
+  match vis.find? f with
+  | some i => (i : Int)
+  | none => -1
+
+theorem foldl_last_match (f : Nat → Bool) (vis : List Nat) :
+    ∀ r0 : Int, vis.foldl (fun r i => if f i then (i : Int) else r) r0 =
+      match vis.reverse.find? f with
+      | some i => (i : Int)
+      | none => r0 := by
+  induction vis with
+  | nil => intro r0; rfl
+  | cons x t ih =>
+    intro r0
+    simp only [List.foldl_cons, List.reverse_cons, List.find?_append]
+    rw [ih]
+    cases h : t.reverse.find? f with
+    | some i => simp
+    | none =>
+      by_cases hx : f x
+      · simp [hx]
+      · simp [hx]
+
+theorem findLast_eq (vis : List Nat) (f : Nat → Bool) :
+    findLast vis f = match vis.reverse.find? f with
+      | some i => (i : Int)
+      | none => -1 := by
+  unfold findLast
+  exact foldl_last_match f vis (-1)
+
+theorem head?_eq_getLast?_of_length_le_one {α : Type} (l : List α) (h : l.length ≤ 1) : l.head? = l.getLast? := by
+  match l, h with
+  | [], _ => rfl
+  | [_], _ => rfl
+  | _ :: _ :: _, h => simp at h
+
+theorem reverse_find?_of_unique (vis : List Nat) (f : Nat → Bool) (h : (vis.filter f).length ≤ 1) :
+    vis.reverse.find? f = vis.find? f := by
+  rw [← List.head?_filter, ← List.head?_filter, List.filter_reverse, List.head?_reverse,
+    ← head?_eq_getLast?_of_length_le_one _ h]
+
 end Occa.Functional
